@@ -36,6 +36,11 @@ THETA = {
 # the parameter value at which a family degenerates to the independence copula C(u, v) = u * v
 INDEPENDENCE_THETA = {'Gumbel': IV(1.0), 'Independence': IV(0.0)}
 
+# exact parameter values inside the property's range, evaluated besides the pieces: with an exact theta the interval
+# evaluation loses no correlation through theta and is tight enough to *refute* (the ends of the range: |tau| = 0.8)
+EXACT_THETAS = {'Clayton': [IV(8.0), IV(2.0), IV(0.5)], 'Gumbel': [IV(5.0), IV(2.0), IV(1.5)],
+                'Frank': [IV(18.2), IV(-18.2), IV(5.0), IV(-5.0), IV(1.0), IV(-1.0)]}
+
 ZERO, ONE = IV(0.0), IV(1.0)
 CLOSED = IV(0.0, 1.0)
 LO, HI = 1e-4, 1 - 1e-4
@@ -55,9 +60,10 @@ class Clause:
     """outer(u, v) -> (lo, hi): every result for a point of the box must lie in [lo, hi] if the clause holds (used to refute).
     inner(u, v) -> (lo, hi) or None: a result interval inside [lo, hi] proves the clause for every point of the box."""
 
-    def __init__(self, name, what, boxes, outer, inner='same', only_independence=False, domain=None, same_as=None, extra_thetas=None):
+    def __init__(self, name, what, boxes, outer, inner='same', only_independence=False, domain=None, same_as=None, extra_thetas=None, point_keyed=False):
         self.name, self.what, self.boxes, self.outer = name, what, boxes, outer
-        self.extra_thetas = extra_thetas or {}  # family -> additional theta pieces (exact ends of the property's range)
+        self.extra_thetas = EXACT_THETAS if extra_thetas is None else extra_thetas  # family -> exact parameter values evaluated besides the pieces
+        self.point_keyed = point_keyed  # the construct names the refuted point and every refuted point is listed
         self.inner = outer if inner == 'same' else inner
         self.only_independence = only_independence
         self.same_as = same_as  # 'u' / 'v': returning that input unchanged proves the clause
@@ -117,12 +123,12 @@ def run_clause(ctx, rep, rule, fam, method, clause, memo):
                 n_ok += 1
             elif d.startswith('bad:'):
                 cons = f'{fam}.{method}: {clause.name}'
-                if clause.extra_thetas:
+                if clause.point_keyed:
                     cons += f' @ theta={th.lo:g} u={u.lo:g} v={v.lo:g}' if (th.exact and u.exact and v.exact) else f' @ {_fmt((fam, th, u, v))}'
                 rep.bad(rule, fn, fn.node.name, f'{fam}.{method}: {clause.what} is refuted for {_fmt((fam, th, u, v))}: {d[4:]}',
                         construct=cons)
                 n_bad += 1
-                if not clause.extra_thetas or n_bad >= 6:
+                if not clause.point_keyed or n_bad >= 6:
                     return 'bad'   # ordinary clauses: one witness box is the finding; point-keyed clauses list every refuted point
             else:
                 n_und += 1
@@ -184,8 +190,6 @@ def ppf_clauses():
             Clause('independence', 'percent_point(y, v) = y at the independence parameter', grid, lambda u, v: (u.lo, u.hi), None, True, domain=dom, same_as='u')]
 
 
-# exact ends of the property's parameter range (|Kendall tau| = 0.8): Gumbel theta = 1 / (1 - 0.8), Frank |theta| = 18.2
-RANGE_ENDS = {'Gumbel': [IV(5.0)], 'Frank': [IV(18.2), IV(-18.2)], 'Clayton': [IV(8.0)]}
 
 
 def bracket_clauses(lo_end):
@@ -194,7 +198,14 @@ def bracket_clauses(lo_end):
     pt = IV(lo_end)
     boxes = [(pt, IV(LO)), (pt, IV(HI))] + [(pt, x) for x in INNER]
     return [Clause('bracket lower end', f'partial_derivative({lo_end:g}, v) <= 1e-4 (so that the search bracket [{lo_end:g}, 1] has a sign change for every y >= 1e-4)',
-                   boxes, lambda u, v: (-float('inf'), LO), lambda u, v: (-float('inf'), LO), domain=(CLOSED, OPEN), extra_thetas=RANGE_ENDS)]
+                   boxes, lambda u, v: (-float('inf'), LO), lambda u, v: (-float('inf'), LO), domain=(CLOSED, OPEN), extra_thetas=EXACT_THETAS, point_keyed=True)]
+
+
+def generator_clauses():
+    """generator(1) = 0 and the generator is finite and non-negative on (0, 1] (the second coordinate of a box is a dummy)."""
+    pts = [(x, ONE) for x in INNER + [NEAR1]]
+    return [Clause('generator(1)=0', 'generator(1) = 0', [(ONE, ONE)], lambda u, v: (0.0, 0.0)),
+            Clause('generator>=0', 'generator(t) >= 0 and never NaN for t in [1e-4, 1]', pts, lambda u, v: (0.0, float('inf')))]
 
 
 def refine(ctx):
